@@ -33,6 +33,7 @@ def run(ctx):
     ctx.rule(config_live)
     ctx.rule(purity)
     ctx.rule(fc.gabor_supports, "R-C07-gabor-support", ("freq", "time"))
+    ctx.rule(fc.gammatone_freq_support, "R-C07-gabor-support")
     ctx.rule(_gabor_pair)
     ctx.rule(gammatone_frame)
     ctx.rule(fc.banks_stateless, "R-C07-pure")
